@@ -38,6 +38,7 @@ class VwPlain:
 class VwPlainCV:
     a: typing.Any
     K: typing.ClassVar[int] = 7
+    kind: typing.ClassVar = "shape"   # the bare qualifier
     def __init__(self, a, b=None):
         self.a = a
 
